@@ -107,7 +107,15 @@ impl World {
 
     /// Buffer model (C11): a collection that starts consumes the whole buffer in its first pass.
     pub fn buf_collection_starts(&self) {
+        let members: Vec<ObjId> = match rust_cc::verif::buffer_walk(100_000) {
+            Some(walk) => {
+                let m = self.m.borrow();
+                walk.members.iter().filter_map(|s| m.by_box.get(&s.box_addr).copied()).collect()
+            }
+            None => Vec::new(),
+        };
         let mut m = self.m.borrow_mut();
+        m.buf_at_collection_start = members;
         m.buf_model.clear();
         m.buf_pending.clear();
         m.dropped_this_pass.clear();
@@ -178,8 +186,48 @@ impl World {
                     let live = m.objs.iter().filter(|o| o.status == Status::Live).count() as u32;
                     m.fault_op = Some((m.op_index, live));
                 }
-                for o in m.objs.iter_mut() {
-                    o.tainted = true;
+                // The objects involved in the unwound call may be leaked and their finalizers / destructors skipped:
+                // everything the running collection (or destruction chain) has touched so far, whatever is on the
+                // callback stack, and everything reachable from those. All other objects keep their full guarantees.
+                let mut involved: Vec<ObjId> = m.touched_this_call.clone();
+                for f in m.frames.iter() {
+                    match f.kind {
+                        FrameKind::Trace(o) | FrameKind::Finalize(o) | FrameKind::Destroy(o) | FrameKind::DestroyValue(o) | FrameKind::LeafFinalize(o) | FrameKind::LeafDrop(o) | FrameKind::Closure(o) => involved.push(o),
+                        FrameKind::Action(a) => {
+                            let (mp, ow) = (m.actions[a as usize].map, m.actions[a as usize].owner);
+                            involved.push(mp);
+                            involved.push(ow);
+                        }
+                        FrameKind::Lib(_) => {}
+                    }
+                }
+                involved.extend(m.inflight.iter().copied());
+                // the whole buffer is handed to a collection when it starts: its members are involved too
+                if m.frames.iter().any(|f| f.collector) {
+                    let buffered: Vec<ObjId> = m.buf_at_collection_start.clone();
+                    involved.extend(buffered);
+                }
+                let mut seen = vec![false; m.objs.len()];
+                let mut stack = Vec::new();
+                for o in involved {
+                    if (o as usize) < seen.len() && !seen[o as usize] {
+                        seen[o as usize] = true;
+                        stack.push(o);
+                    }
+                }
+                while let Some(o) = stack.pop() {
+                    let next: Vec<ObjId> = m.objs[o as usize].edges.values().copied().chain(m.objs[o as usize].map).chain(m.objs[o as usize].owner).collect();
+                    for t in next {
+                        if !seen[t as usize] {
+                            seen[t as usize] = true;
+                            stack.push(t);
+                        }
+                    }
+                }
+                for (i, o) in m.objs.iter_mut().enumerate() {
+                    if seen[i] {
+                        o.tainted = true;
+                    }
                 }
                 let mut st = self.stats.borrow_mut();
                 *st.faults_fired.entry(format!("{}@{}", kind.name(), phase)).or_insert(0) += 1;
@@ -284,6 +332,7 @@ pub fn cb_trace_enter(id: u32, canary: u64) {
             m.batch_open = false;
             m.trace_seen_in_call = true;
             m.objs[id as usize].processed_by_collection = true;
+            m.touched_this_call.push(id);
             if World::reach(&m)[id as usize] {
                 w.stats.borrow_mut().bump("traced_reachable_object");
             }
@@ -424,6 +473,7 @@ pub fn cb_node_finalize(node: &Node) {
     if collector {
         w.m.borrow_mut().nontrace_since_pass = true;
     }
+    w.m.borrow_mut().touched_this_call.push(id);
     let _fg = w.push_frame(FrameKind::Finalize(id), collector, false);
     w.sample_phase(false, "Finalize::finalize");
     if !finalize_checks(w, id, "object") {
@@ -431,7 +481,7 @@ pub fn cb_node_finalize(node: &Node) {
     }
     w.stats.borrow_mut().bump(if collector { "finalize_in_collector" } else { "finalize_in_rc_path" });
     // forwarding census (C17): the container impls forward to each contained value exactly once
-    let borrowed = w.m.borrow().store_borrowed == Some(id);
+    let borrowed = w.m.borrow().store_borrowed == Some(id) && !w.m.borrow().store_borrow_shared;
     {
         use rust_cc::Finalize;
         node.store.finalize();
@@ -446,6 +496,16 @@ pub fn cb_node_finalize(node: &Node) {
                 w.fail("O-VISIT.finalize", format!("Finalize forwarding on object {} reached container position {} {} times (expected {})", id, i, f, want));
                 return;
             }
+        }
+    }
+    {
+        use rust_cc::Finalize;
+        ZFIN.with(|c| c.set(0));
+        node.zsts.finalize();
+        let got = ZFIN.with(|c| c.get());
+        if got != N_ZSTS {
+            w.fail("O-VISIT.finalize-zst", format!("Finalize forwarding through Vec / array / slice / tuple / Option / RefCell reached {} of {} zero-sized elements", got, N_ZSTS));
+            return;
         }
     }
     w.fault_point(FaultKind::Finalize);
@@ -530,6 +590,7 @@ pub fn cb_node_drop(node: &Node) {
             }
         }
         m.objs[id as usize].status = Status::Destroying;
+        m.touched_this_call.push(id);
         m.dropped_this_pass.push(id);
         m.buf_model.remove(&id);
         let boxed = st == Status::Live;
@@ -639,7 +700,7 @@ fn leaf_lookup(w: &World, addr: usize, for_drop: bool) -> Option<ObjId> {
     None
 }
 
-pub fn cb_leaf_trace(_addr: usize) {
+pub fn cb_leaf_trace(addr: usize) {
     let Some(w) = world() else { return };
     if w.dead.get() {
         return;
@@ -650,6 +711,10 @@ pub fn cb_leaf_trace(_addr: usize) {
         m.collection_this_op = true;
         m.batch_open = false;
         World::buf_note_trace(&mut m, &w.stats);
+        if let Some(&o) = m.by_payload.get(&addr) {
+            m.touched_this_call.push(o);
+            m.objs[o as usize].processed_by_collection = true;
+        }
     }
     if let Some(t) = w.is_tracing_now() {
         if !t {
@@ -683,6 +748,7 @@ pub fn cb_leaf_finalize(addr: usize, bytes: &[u8]) {
     if collector {
         w.m.borrow_mut().nontrace_since_pass = true;
     }
+    w.m.borrow_mut().touched_this_call.push(id);
     let _fg = w.push_frame(FrameKind::LeafFinalize(id), collector, false);
     if let Some(true) = w.is_tracing_now() {
         w.fail("O-PHASE.is_tracing", "is_tracing() == true inside Finalize::finalize of a leaf".to_string());
@@ -751,6 +817,7 @@ pub fn cb_leaf_drop(addr: usize, bytes: &[u8]) {
             }
         }
         m.dropped_this_pass.push(id);
+        m.touched_this_call.push(id);
         m.buf_model.remove(&id);
     }
     if let Some((o, msg)) = problem {
